@@ -243,6 +243,9 @@ type Declaration struct {
 	Type   DeclarationType
 	Name   string
 	Buffer string
+	// Leading comments and whether empty lines precede the declaration
+	Leading   string
+	EmptyLine bool
 }
 
 type Declarations []*Declaration
